@@ -694,8 +694,9 @@ static void *c05_decoder(void *p) {
             }
         }
         while ((int)E.size() < e) { int x = (int)(splitmix64(sd) % (E.empty() ? a.g.k : n)); if (!gone[x]) { gone[x] = true; E.push_back(x); } }
-        std::vector<const std::vector<uint8_t> *> frs;
-        for (int i = 0; i < n; i++) if (!gone[i]) frs.push_back(&a.s->frags[i]);
+        std::vector<const std::vector<uint8_t> *> frs; uint64_t pm = 0;
+        for (int i = 0; i < n; i++) if (!gone[i]) { frs.push_back(&a.s->frags[i]); pm |= 1ull << i; }
+        if (a.g.backend == ref::B_ISA_V) { Config g8 = a.g; g8.w = 8; if (!ref::isa_first_k_invertible(g8, pm)) continue; }     // (not MDS for every shape: such sets may fail)
         FragSet fs; fs.build(frs, {});
         DecodeOut d = decode(a.desc, fs, a.s->fraglen, 0);
         if (d.rc != 0) a.err = "decode of " + std::to_string(e) + " erasures (< hd) failed rc=" + std::to_string(d.rc) + " while instances of the same shape are being created";
@@ -748,13 +749,10 @@ static void sweep_c05_mt() {
 // C05 fault dimension: the aligned allocations the library makes DURING a decode / reconstruct (posix_memalign: the
 // front end's fragment buffers and the flat-XOR decoder's own scratch block) fail one at a time. The executable's
 // posix_memalign takes precedence over the sanitizer's weak one and forwards to it.
-extern "C" int __interceptor_posix_memalign(void **, size_t, size_t);
-static int g_pm_fail_at = -1, g_pm_calls = 0;
-static bool g_pm_armed = false;
-extern "C" int posix_memalign(void **p, size_t al, size_t sz) {
-    if (g_pm_armed) { int n = g_pm_calls++; if (n == g_pm_fail_at) return 12 /* ENOMEM */; }
-    return __interceptor_posix_memalign(p, al, sz);
-}
+extern "C" { extern int verif_alloc_armed, verif_alloc_fail_at, verif_alloc_calls, verif_alloc_heap_first, verif_alloc_heap_calls; }      // harness/allocfault.c
+#define g_pm_armed verif_alloc_armed
+#define g_pm_fail_at verif_alloc_fail_at
+#define g_pm_calls verif_alloc_calls
 static Result run_c05_allocfail(const Case &c) {
     Result r;
     Config g = cfg_from(c);
@@ -772,24 +770,37 @@ static Result run_c05_allocfail(const Case &c) {
     for (int i = 0; i < n; i++) if (!(pm >> i & 1)) lost.push_back(i);
     int which = (int)c.get("call", 0);      // 0 = decode, 1+j = reconstruct of the j-th lost index
     int dest = which > 0 && !lost.empty() ? lost[(which - 1) % lost.size()] : -1;
+    // optionally some presented fragments carry payload damage and decode runs with force_metadata_checks (C20: the
+    // verdict "the original bytes or an error" holds whatever fails inside)
+    std::vector<std::vector<uint8_t>> dmgbuf;
+    dmgbuf.reserve(present.size() + 1);
+    int force = (int)c.get("force", 0);
+    for (int d : c.ints("damaged")) for (size_t j = 0; j < present.size(); j++) if (present[j] == d && s.frags[d].size() > 80) {
+        dmgbuf.push_back(s.frags[d]);
+        dmgbuf.back()[80 + (size_t)(d * 7) % (s.frags[d].size() - 80)] ^= 0x10;
+    }
+    { size_t u = 0; for (int d : c.ints("damaged")) for (size_t j = 0; j < present.size(); j++) if (present[j] == d && s.frags[d].size() > 80) frs[j] = &dmgbuf[u++]; }
     auto call = [&](int fail_at, int &ncalls, std::string &what) -> bool {
         FragSet fs; fs.build(frs, c.ints("align"));
-        g_pm_fail_at = fail_at; g_pm_calls = 0; g_pm_armed = true;
+        g_pm_fail_at = fail_at >= 0 ? fail_at : -1; g_pm_calls = 0; verif_alloc_heap_first = fail_at == -2; verif_alloc_heap_calls = 0; g_pm_armed = 1;
         int rc; bool exact;
-        if (dest < 0) { char *out = nullptr; uint64_t ol = 0; rc = liberasurecode_decode(in.desc, fs.ptrs, fs.count, s.fraglen, 0, &out, &ol); g_pm_armed = false;
+        if (dest < 0) { char *out = nullptr; uint64_t ol = 0; rc = liberasurecode_decode(in.desc, fs.ptrs, fs.count, s.fraglen, force, &out, &ol); g_pm_armed = 0;
             exact = rc == 0 && ol == data.size() && (ol == 0 || !memcmp(out, data.data(), ol)); if (rc == 0) liberasurecode_decode_cleanup(in.desc, out); }
-        else { std::vector<uint8_t> o(s.fraglen, 0xA5); rc = liberasurecode_reconstruct_fragment(in.desc, fs.ptrs, fs.count, s.fraglen, dest, (char *)o.data()); g_pm_armed = false; exact = rc == 0 && o == s.frags[dest]; }
+        else { std::vector<uint8_t> o(s.fraglen, 0xA5); rc = liberasurecode_reconstruct_fragment(in.desc, fs.ptrs, fs.count, s.fraglen, dest, (char *)o.data()); g_pm_armed = 0; exact = rc == 0 && o == s.frags[dest]; }
         ncalls = g_pm_calls;
         if (!fs.unchanged()) { what = "an input fragment was modified"; return false; }
         if (rc > 0) { what = "returned the positive code " + std::to_string(rc); return false; }
         if (rc == 0 && !exact) { what = "returned 0 with wrong bytes"; return false; }
-        if (fail_at < 0 && rc != 0) { what = "failed (rc=" + std::to_string(rc) + ") without any injected fault"; return false; }
+        if (fail_at == -1 && rc != 0 && c.ints("damaged").empty()) { what = "failed (rc=" + std::to_string(rc) + ") without any injected fault"; return false; }
         return true;
     };
     int N = 0, dummy = 0; std::string what;
     if (!call(-1, N, what)) { r.fail(std::string(dest < 0 ? "decode" : "reconstruct") + " " + what); return r; }
     for (int i = 0; i < N && r.ok; i++)
         if (!call(i, dummy, what)) r.fail(std::string(dest < 0 ? "decode" : "reconstruct") + " with aligned allocation number " + std::to_string(i) + " of " + std::to_string(N) + " failing: " + what);
+    // "no memory at all": the first plain allocation of the call fails
+    if (r.ok && !call(-2, dummy, what)) r.fail(std::string(dest < 0 ? "decode" : "reconstruct") + " with its first plain allocation failing: " + what);
+    verif_alloc_heap_first = 0;
     if (r.ok && !call(-1, dummy, what)) r.fail(std::string("the call after the failed ones ") + what);
     stats().extra["sum_allocation_faults_injected"] += N;
     r.nontrivial = N > 0;
@@ -854,6 +865,33 @@ static void sweep_c02_allocfail() {
     stats().exhaustive = true;
 }
 
+// C20 with allocation faults: decode with force_metadata_checks while some presented fragments carry payload damage
+static void sweep_c20_allocfail() {
+    int shard = (int)opts().shard, ns = (int)opts().nshards, counter = 0;
+    std::vector<Config> cfgs;
+    { Config g; g.backend = ref::B_RS; g.k = 4; g.m = 2; g.hd = 2; g.ct = CT_CRC32; cfgs.push_back(g); }
+    { Config g; g.backend = ref::B_XOR; g.k = 10; g.m = 5; g.hd = 3; g.ct = CT_CRC32; cfgs.push_back(g); }
+    { Config g; g.backend = ref::B_RS; g.k = 2; g.m = 3; g.hd = 3; g.ct = CT_CRC32; cfgs.push_back(g); }
+    if (isa_available()) { Config g; g.backend = ref::B_ISA_C; g.k = 5; g.m = 3; g.hd = 3; g.w = 8; g.ct = CT_CRC32; cfgs.push_back(g); }
+    for (auto &g : cfgs) for (int scen = 0; scen < 4; scen++) for (int al = 0; al < 2; al++) {
+        if ((counter++ % ns) != shard) continue;
+        int n = g.n();
+        Case c = base_case(g, (size_t)g.k * 40 + 1, 97000 + counter);
+        std::vector<int> E, D;
+        switch (scen) {
+        case 0: D = {1 % g.k}; break;                        // all present, a data fragment damaged
+        case 1: E = {0}; D = {g.k}; break;                   // data 0 absent, first parity damaged
+        case 2: E = {0}; D = {}; break;                      // plain rebuild, nothing damaged
+        default: D = {0, n - 1}; break;                      // two damaged (rs 4+2: too few valid ones left -> error expected)
+        }
+        present_from_erased(c, n, E);
+        if (al) { std::vector<int> a(n - (int)E.size(), 0); a[counter % a.size()] = 4; c.setv("align", a); }
+        c.setv("damaged", D); c.set("force", 1); c.set("call", 0);
+        sweep_case(c, run_c05_allocfail);
+    }
+    stats().exhaustive = true;
+}
+
 // C01 with other threads creating and destroying instances of the same shape meanwhile (round trip on an existing
 // instance is a statement about that instance, whatever the rest of the process does with the registry)
 static void sweep_c01_mt() {
@@ -870,6 +908,22 @@ static void sweep_c01_mt() {
         c.set("data_cls", BUF_RANDOM); c.set("data_seed", 4100 + counter); c.set("data_len", (int64_t)g.k * ((g.backend == ref::B_XOR && g.hd == 4) ? (128 << 10) : 20) + (counter % 3));
         bool big = g.backend == ref::B_XOR && g.hd == 4;       // long copies inside the decoder: concurrent decodes on ONE descriptor overlap for real
         c.set("decoders", big ? 3 : 2); c.set("creators", big ? 1 : 2); c.set("rounds", big ? (th ? 1500 : 250) : (th ? 3000 : 400)); c.set("seed", opts().seed * 137 + counter);
+        sweep_case(c, run_c05_mt);
+    }
+}
+
+// C19 with several threads decoding and rebuilding through ONE adapter instance (different erasure sets each), while
+// another creates and destroys instances of the same shape: per-call scratch state of the adapters must be per call
+static void sweep_c19_mt() {
+    if (!isa_available()) return;
+    int shard = (int)opts().shard, ns = (int)opts().nshards, counter = 0;
+    bool th = opts().tier == "thorough";
+    for (int be : {ref::B_ISA_V, ref::B_ISA_C}) for (auto km : std::vector<std::pair<int, int>>{{10, 4}, {4, 2}, {16, 6}, {6, 6}}) {
+        if ((counter++ % ns) != shard) continue;
+        Config g; g.backend = be; g.k = km.first; g.m = km.second; g.hd = g.m; g.w = (counter & 1) ? 8 : 0; g.ct = (counter & 2) ? CT_CRC32 : CT_NONE;
+        Case c; cfg_to(c, g);
+        c.set("data_cls", BUF_RANDOM); c.set("data_seed", 4300 + counter); c.set("data_len", (int64_t)g.k * 64 + (counter % 3));
+        c.set("decoders", 4); c.set("creators", 1); c.set("rounds", th ? 6000 : 1500); c.set("seed", opts().seed * 139 + counter);
         sweep_case(c, run_c05_mt);
     }
 }
@@ -1061,8 +1115,10 @@ int main(int argc, char **argv) {
     h.mode("c05_large", [] { sweep_large(run_c05, true); }, run_c05);
     h.mode("c05_allocfail", sweep_c05_allocfail, run_c05_allocfail);
     h.mode("c02_allocfail", sweep_c02_allocfail, run_c05_allocfail);
+    h.mode("c20_allocfail", sweep_c20_allocfail, run_c05_allocfail);
     h.mode("c05_mt", sweep_c05_mt, run_c05_mt);
     h.mode("c01_mt", sweep_c01_mt, run_c05_mt);
+    h.mode("c19_mt", sweep_c19_mt, run_c05_mt);
     h.mode("c19", [] { rc_property("C19 ISA-L adapters", gen_c19, run_c19); }, run_c19);
     h.mode("c19_sweep", sweep_c19, run_c19);
     h.mode("c19_singular", sweep_c19_singular, run_c19);
